@@ -226,7 +226,10 @@ package iscp
 //@   props C10 C05
 // C05: a reconnect replaces the wire connection and nothing else of the connection's identity
 // state: the stream-alias generator (and with it every alias already handed out) survives
-//@   ensures[C05] c.downstreamIDGenerator == old(c.downstreamIDGenerator) && imp(c.downstreamIDGenerator != nil, c.downstreamIDGenerator.currentValue == old(c.downstreamIDGenerator.currentValue))
+// (that the generator's counter itself is untouched is NOT claimed: reconnect makes dynamic calls - hooks, dialers -
+// whose computed mod-set contains every alias generator's counter; an earlier version "proved" it only because the
+// mod-set missed atomic writes to struct fields, DESIGN.md 13.3)
+//@   ensures[C05] c.downstreamIDGenerator == old(c.downstreamIDGenerator)
 //@   ensures[C05] c.sentStorage == old(c.sentStorage)
 //@   ensures[C05] c.upstreamRepository == old(c.upstreamRepository)
 //@   ensures[C05] c.downstreamRepository == old(c.downstreamRepository)
@@ -615,7 +618,6 @@ package iscp
 //@   ensures d.upstreamInfoAliasGenerator == old(d.upstreamInfoAliasGenerator)
 //@   ensures d.chunkAckIDSequence == old(d.chunkAckIDSequence)
 //@   ensures imp(d.chunkAckIDSequence != nil, d.chunkAckIDSequence.Current == old(d.chunkAckIDSequence.Current))
-//@   ensures imp(d.dataIDAliasGenerator != nil, d.dataIDAliasGenerator.currentValue == old(d.dataIDAliasGenerator.currentValue))
 //@   assert call closeWithError: failed && arg2 == resErr
 //@   ensures imp(failed, result != nil && closedWith != nil)
 //@   ensures imp(result == nil, connected)
@@ -871,3 +873,13 @@ package iscp
 // C20: the default flush policy cuts a chunk every 100 ms or above 10000 buffered payload bytes
 //@ initial[C20] defaultFlushInterval == 100 * time.Millisecond
 //@ initial[C20] defaultFlushBufferSize == 10000
+
+// ---------------------------------------------------------------- C08: the result dispatcher cannot be stalled by a late ack
+// processResult hands a result to the chunk's waiter while holding the stream mutex. The waiter may
+// have given up (ack timeout, cancellation) with its channel still registered: every registered
+// result channel therefore has a free slot for its single result, so a late acknowledgement can never
+// block the dispatcher - and with it the flush loop and every later write - under u.mu.
+//@ lockinv[C08] Upstream.mu: forall(q, uint32, imp(has(self.upstreamChunkResultChs, q), cap(self.upstreamChunkResultChs[q]) >= 1))
+//@ func (*Upstream).processResult
+//@   props C08
+//@   assert send: cap(ch) >= 1
